@@ -75,7 +75,7 @@ def gen_contracted(rng, tier, triples):
             tr = [rng.choice(tl) for _ in range(rng.randint(1, 4))]
         # both orientations of every triple, as the generated classes request them
         tr = tr + [(t[0], t[2], t[1]) for t in tr if t[1] != t[2]]
-        tr = [t for t in tr if t[0] - nraw >= 0 or True]
+        tr = list(dict.fromkeys(tr))       # no triple twice in one call (type2 accumulates into its output slots; no generated class lists a triple twice)
         parts = ["k%d" % i, str(nraw), hx(A), hx(B), str(len(zs))]
         for z in zs:
             parts += [hx(z), hx(rng.uniform(0.5, 3.0) * rng.choice([1, -1]))]
